@@ -49,6 +49,7 @@ def plan(prop):
     if prop == 'C03':
         obs.append((core, lambda ctx: co.ob_total_cost_fold(ctx, 16, rates)))
     if prop == 'C20':
+        obs.append((core, lambda ctx: co.ob_simple_objectives(ctx)))
         for k, closed in shapes:
             obs.append((core, lambda ctx, k=k, c=closed: co.ob_distance_estimate(ctx, k, c, bits)))
         for k, closed in [(k, c) for k, c in shapes if k <= 2]:
